@@ -69,11 +69,34 @@ static void put_raw(const char *bytes)
     vt_put("]");
 }
 
+/* keys with index >= N_KEYS are synthesised ("q<index>"): bulk histories
+ * grow maps past several hash-table resize thresholds */
+static const char *key_bytes(int i)
+{
+    static char buf[4][24];
+    static int slot;
+
+    if (i < N_KEYS)
+	return key_pool[i];
+    slot = (slot + 1) & 3;
+    snprintf(buf[slot], sizeof(buf[slot]), "q%d", i);
+    return buf[slot];
+}
+
 static void put_key_id(const char *bytes)
 {
     if (g_raw) {
 	put_raw(bytes);
 	return;
+    }
+    if (bytes[0] == 'q' && isdigit((unsigned char)bytes[1])) {
+	char *end;
+	long v = strtol(bytes + 1, &end, 10);
+
+	if (*end == '\0' && v >= N_KEYS && bytes[1] != '0') {
+	    vt_put("\"k%ld\"", v);
+	    return;
+	}
     }
     for (int i = 0; i < N_KEYS; ++i) {
 	if (strcmp(bytes, key_pool[i]) == 0) {
@@ -289,7 +312,7 @@ static void render(const op_t *op, char *buf, vt_rng_t *rng, int use_libquote)
 		SPACES();
 	    }
 	    if (use_libquote) {
-		char *q = LIB(vnaproperty_quote_key(key_pool[st->n]));
+		char *q = LIB(vnaproperty_quote_key(key_bytes(st->n)));
 
 		if (q == NULL) {
 		    strcpy(p, "<<quote_key failed>>");
@@ -300,12 +323,13 @@ static void render(const op_t *op, char *buf, vt_rng_t *rng, int use_libquote)
 		    free(q);
 		}
 	    } else {
-		p = quote_own(key_pool[st->n], p);
+		p = quote_own(key_bytes(st->n), p);
 	    }
 	    {
-		int kl = (int)strlen(key_pool[st->n]);
+		const char *kb = key_bytes(st->n);
+		int kl = (int)strlen(kb);
 
-		no_space = needs_quote(key_pool[st->n], kl - 1, kl);
+		no_space = needs_quote(kb, kl - 1, kl);
 	    }
 	    break;
 	case S_IDX:
@@ -667,6 +691,8 @@ static void end_case(vnaproperty_t **rootp)
 
 /* ------------------------------------------------------ random generator */
 
+static int g_nidx = 4;		/* subscripts are drawn from 0..g_nidx-1 */
+
 static void random_path(vt_rng_t *rng, op_t *op, int set_ctx, int nk, int depth)
 {
     int n = 1 + vt_below(rng, depth);
@@ -681,10 +707,10 @@ static void random_path(vt_rng_t *rng, op_t *op, int set_ctx, int nk, int depth)
 	    st->n = vt_below(rng, nk);
 	} else if (r < 80) {
 	    st->k = S_IDX;
-	    st->n = vt_below(rng, 4);
+	    st->n = vt_below(rng, g_nidx);
 	} else if (r < 90) {
 	    st->k = S_INS;
-	    st->n = vt_below(rng, 4);
+	    st->n = vt_below(rng, g_nidx);
 	} else {
 	    st->k = S_APP;
 	}
@@ -692,7 +718,7 @@ static void random_path(vt_rng_t *rng, op_t *op, int set_ctx, int nk, int depth)
 	if (!set_ctx && (st->k == S_INS || st->k == S_APP) &&
 		vt_below(rng, 4) != 0) {
 	    st->k = S_IDX;
-	    st->n = vt_below(rng, 4);
+	    st->n = vt_below(rng, g_nidx);
 	}
     }
     {
@@ -802,14 +828,22 @@ int main(int argc, char **argv)
 	     * frequent; every third case uses the whole adversarial pool */
 	    nk = (c % 3 == 0) ? N_KEYS : 3;
 	    nv = (c % 3 == 0) ? N_VALS : 3;
+	    g_nidx = 4;
+	    if (c % 5 == 4) {		/* bulk: big maps, long lists */
+		nk = 150;
+		g_nidx = 24;
+	    }
 	    libq = (c % 2 == 1);	/* quote keys with vnaproperty_quote_key */
 	    vt_put("{\"e\":\"Reset\",\"case\":\"rand:%llu:%ld:%d\"}",
 		    (unsigned long long)seed, c, len);
 	    vt_end_line();
-	    for (int i = 0; i < len; ++i) {
+	    for (int i = 0; i < (c % 5 == 4 ? 3 * len : len); ++i) {
 		op_t op;
 
 		random_op(&rng, &op, nk, nv);
+		if (c % 5 == 4 && i < 2 * len && op.kind == K_DEL &&
+			vt_below(&rng, 3) != 0)
+		    op.kind = K_SET;	/* grow first, shrink later */
 		exec_op(&root, &op, &rng, libq);
 	    }
 	    end_case(&root);
